@@ -46,6 +46,28 @@ theorem cursor_ahead_loses_data :
     let m : Mgr := { file := [], cursor := 1 }
     loadOf (run m l).file 1 ≠ stateOf l 1 := by decide
 
+/-- **commits while a run is streaming**: a run dumps the snapshot taken when it started (`l ++ d1`) and moves the cursor to
+the largest version it wrote; whatever is committed while it streams (`d2`) has larger versions and is picked up by the next
+run — after that run the restored hub equals the source as it stood when that run started. -/
+theorem overlapped_then_quiet (m : Mgr) (l : Log) (h : Inv m l) (d1 d2 : Log) (k : Nat) :
+    loadOf (run (run m (l ++ d1)) (l ++ d1 ++ d2)).file k = stateOf (l ++ d1 ++ d2) k :=
+  let h1 := inv_run m l d1 h
+  let h2 := inv_run _ (l ++ d1) d2 h1
+  restore_of_sound_full _ _ h2.sound h2.full k
+
+/-- a run that streams the snapshot `snap` but takes its cursor from the database's newest version when it returns
+(the log has grown to `full` by then) — NOT what the code does. -/
+def runCursorFromDb (m : Mgr) (snap full : Log) : Mgr :=
+  { file := m.file ++ backup snap m.cursor, cursor := full.length - 1 }
+
+/-- why the cursor must come from the dump: with the cursor taken from the database, a key committed while the run streamed
+is in no dump — the next (quiet) run starts behind it. -/
+theorem cursor_from_db_loses_overlapped_commit :
+    let snap : Log := [(1, some 10)]
+    let full : Log := [(1, some 10), (2, some 20), (3, some 30)]
+    let m := run (runCursorFromDb {} snap full) full
+    loadOf m.file 2 ≠ stateOf full 2 ∧ loadOf (run (run {} snap) full).file 2 = stateOf full 2 := by decide
+
 /-! ## tie to the Go source (regenerated facts) -/
 open Hub.Facts.BackupFacts in
 theorem facts_shape :
